@@ -46,7 +46,7 @@ def plan(tier, seed):
     cases = []
     for kind in KINDS:
         mem = ["ref", "strip", "block", "distorted", "renum"] + (["curved"] if kind in zoo.QUADRATIC else []) + (["aniso"] if tier == "thorough" else [])
-        for m in mem + ["ring"]:
+        for m in mem + ["ring", "fan"]:
             cases.append(dict(key=f"{kind}/{m}/none", kind=kind, member=m, tf="none", seed=seed, cost=10 if kind.startswith("hex") else 1))
         for tf in ("affine", "rigid", "mm", "km", "um"):
             for m in ("distorted",) + (("curved",) if kind in zoo.QUADRATIC else ()):
@@ -135,6 +135,18 @@ def build(case):
         X = base.points.copy()
         X[:, 0], X[:, 1] = R * np.cos(phi), R * np.sin(phi)
         mesh = fem.Mesh(X, base.cells, base.cell_type)
+        return mesh, mesh
+    if member == "fan":
+        # an unstructured patch: four cells around ONE point that lies on a straight part of the surface (a surface point of
+        # valence 4 in the plane, 8 after extrusion in three layers), off the origin
+        th = np.deg2rad(np.arange(5) * 45.0)
+        thm = 0.5 * (th[1:] + th[:-1])
+        pts = np.vstack([[[0.0, 0.0]], np.stack([np.cos(th), np.sin(th)], axis=1), 1.5 * np.stack([np.cos(thm), np.sin(thm)], axis=1)]) + np.array([0.3, 0.2])
+        cells = np.array([[0, 1 + k, 6 + k, 2 + k] for k in range(4)])
+        base = fem.Mesh(pts, cells, "quad")
+        if kind.startswith("hex"):
+            base = base.expand(n=4, z=1.5)
+        mesh = zoo._finish(base, kind)
         return mesh, mesh
     mesh = zoo.make(kind, member, seed)
     # topologically identical, axis-aligned, uncurved twin for the plane masks
@@ -314,6 +326,29 @@ def run(case):
                 dm = np.abs(np.linalg.norm(dA, axis=0) - np.asarray(rb.dV)).max()
                 if dm > TOL * size ** (dim - 1):
                     bad(sub + "/dV", "boundary dV must be |dA|", float(dm), 0)
+                # copies, type conversions and in-place re-evaluations of the region describe the same surface
+                if mlab in ("nomask", "xmax", "oneface"):
+                    import copy as _copy
+
+                    def _reloaded(r):
+                        q_ = _copy.deepcopy(r)
+                        q_.reload()
+                        return q_
+
+                    for clab, mk_, tl_ in (("copy", lambda r: r.copy(), 1e-13), ("astype(float32)", lambda r: r.astype(np.float32), 2e-6), ("reload", _reloaded, 1e-13)):
+                        try:
+                            rc = mk_(rb)
+                        except Exception as e:  # noqa
+                            bad(sub + f"/{clab}/exception", "copy / conversion / reload of a boundary region raised", repr(e)[:160], "a region")
+                            continue
+                        st["trans"] += 1
+                        for nm in ("dA", "dV", "normals"):
+                            a_, b_ = np.asarray(getattr(rc, nm), float), np.asarray(getattr(rb, nm), float)
+                            st["traces"] += 1
+                            if a_.shape != b_.shape or np.abs(a_ - b_).max() > tl_ * max(np.abs(b_).max(), 1e-300):
+                                bad(sub + f"/{clab}/{nm}", f"{nm} of a {clab} of the boundary region vs the region itself (area vectors, face areas as differential volumes, normals)",
+                                    float(np.abs(a_ - b_).max()) if a_.shape == b_.shape else list(a_.shape), 0)
+                                break
                 # per-face Stokes oracle (match faces by node set)
                 ref_by_set = {ns: (c, fi) for c, fi, ns in sel_ref}
                 if only_surface or True:
